@@ -104,7 +104,10 @@ def run_c15(ctx, fa):
         ir = g.schema(top=rnd.choice(["record"] * 5 + ["union", "array", "map", "enum", "fixed", "prim"]))
         raw = g.render(ir)
         try:
-            records = [g.datum(ir, hints=False) for _ in range(rnd.choice([1, 1, 2, 3]))]
+            nrec = rnd.choice([1, 1, 2, 3])
+            if gen.count_nodes(ir) <= 4 and rnd.random() < 0.04:
+                nrec = rnd.choice([256, 257, 300, 513])         # many records in one call (buffers inside the encoder)
+            records = [g.datum(ir, hints=False) for _ in range(nrec)]
         except (gen.NoDatum, RecursionError):
             continue
         # record-typed defaults are left out: their decoded representation (e.g. untagged union values inside) is not pinned (DESIGN D.3)
